@@ -219,6 +219,10 @@ func genOps(prop string, r *Rng, n int, tier string, emit func(string)) {
 				emit("udec " + hx(d))
 			}
 		}
+		for _, f := range bigTwccFrames() {
+			emit("dec.TWCC " + hx(f))
+			emit("udec " + hx(f))
+		}
 		// every prefix of one valid frame per kind; (PT,count) rows behind tiny bodies
 		for _, k := range decKinds {
 			f := validFrame(r, k)
@@ -334,6 +338,34 @@ func genOps(prop string, r *Rng, n int, tier string, emit func(string)) {
 			emit("reenc " + hx(append(nk, validFrame(r, "PLI")...)))
 			emit("reenc " + hx(append(append(validFrame(r, "BYE"), nk...), validFrame(r, "RRR")...)))
 		}
+		if prop == "C09" {
+			// received packets with the P bit set, on types whose own encoder never sets it: whatever the decoder makes of the
+			// last octets, the re-encoding must decode to the same
+			sr := append([]byte{0xa0, 200, 0, 8, 0, 0, 0, 1}, make([]byte, 20)...)
+			sr = append(sr, 0xde, 0xad, 0xbe, 0xef, 1, 0, 0, 3)
+			emit("reenc " + hx(sr))
+			for i := 0; i < 40; i++ {
+				k := []string{"SR", "RR", "SDES", "BYE", "NACK", "PLI", "FIR", "XR", "REMB", "RRR"}[r.Intn(10)]
+				f := validFrame(r, k)
+				if k == "SR" || k == "RR" {
+					f = append(f, r.Bytes(4*(1+r.Intn(2)))...)
+					binary.BigEndian.PutUint16(f[2:], uint16(len(f)/4-1))
+				}
+				f[0] |= 0x20
+				f[len(f)-1] = byte(r.Pick(0, 1, 2, 3, 4, 5, 8, len(f)))
+				emit("reenc " + hx(f))
+			}
+		}
+		if prop == "C09" && thorough && own() {
+			// one XR loss-RLE block of 65536 chunks (128 KiB): block lengths beyond 16 bits of octets and of chunks
+			blk := []byte{1, 0, 0x80, 2, 0, 0, 0, 7, 0, 1, 0, 2}
+			for j := 0; j < 65536; j++ {
+				blk = append(blk, 0x40, 1)
+			}
+			x := append([]byte{0x80, 207, 0, 0, 0, 0, 0, 9}, blk...)
+			binary.BigEndian.PutUint16(x[2:], uint16(len(x)/4-1))
+			emit("reenc " + hx(x))
+		}
 		if prop == "C09" && !thorough {
 			pf := [][2]int{{206, 4}, {205, 1}}[r.Intn(2)]
 			b := behindHeader(r, pf[0], pf[1], 65540-4)
@@ -377,6 +409,9 @@ func genOps(prop string, r *Rng, n int, tier string, emit func(string)) {
 		for i := 0; i < n; i++ {
 			k := allKinds[r.Intn(len(allKinds))]
 			emit(opWith("encspec", dirtyXRHeaders(r, genValue(r, k, false))))
+		}
+		for _, dl := range []int{65520, 65521, 65522, 65523} { // the largest application-defined packets: exactly 65536 octets on the wire
+			emit(opWith("encspec", &rtcp.ApplicationDefined{SSRC: 1, Name: "name", Data: r.Bytes(dl)}))
 		}
 		for i := 0; i < n/40; i++ { // Marshal of a list, CompoundPacket.Marshal
 			emit("cenc " + packetsTokens(genCompoundSeq(r)))
@@ -569,6 +604,28 @@ func genOps(prop string, r *Rng, n int, tier string, emit func(string)) {
 			}
 		}
 	case "C06":
+		{ // 16384 header-only frames (65536 octets): the concatenation law has no bound on the number of frames
+			var d []byte
+			for j := 0; j < 16384; j++ {
+				d = append(d, 0x80, 192, 0, 0)
+			}
+			emit("udec " + hx(d))
+		}
+		for i := 0; i < n/25; i++ { // CompoundPacket.Unmarshal into a value that holds an earlier datagram's packets
+			a, _ := rtcp.Marshal(genCompoundSeq(r))
+			b, _ := rtcp.Marshal(genCompoundSeq(r))
+			if len(a) == 0 || len(b) == 0 {
+				continue
+			}
+			switch r.Intn(3) {
+			case 0:
+				emit("reuse.COMPOUND " + hx(a) + " " + hx(b))
+			case 1: // the second datagram fails after its first frames
+				emit("reuse.COMPOUND " + hx(a) + " " + hx(append(append([]byte{}, b...), 0x80, 200, 0, 9)))
+			case 2:
+				emit("reuse.COMPOUND " + hx(a) + " " + hx(b[:len(b)-r.Pick(1, 2, 4)]))
+			}
+		}
 		for i := 0; i < n; i++ {
 			d := genDatagram(r)
 			if r.Bool() {
@@ -668,6 +725,17 @@ func genOps(prop string, r *Rng, n int, tier string, emit func(string)) {
 			emit("udec " + hx(append(append(append([]byte{}, pli...), raw...), pli...)))
 			emit("udec " + hx(append(append([]byte{}, pli...), raw...)))
 		}
+		for i := 0; i < 12; i++ { // MarshalTo into buffers of the exact size and larger
+			q := genValue(r, "REMB", false)
+			emit(fmt.Sprintf("rembto %s %d", bodyTokens(q), q.MarshalSize()+r.Pick(0, 4, 64, 1480)))
+		}
+		for _, c := range [][2]int{{65534, 2}, {65532, 4}, {65535, 2}, {65530, 6}, {0, 16384}} { // CCFB blocks ending exactly at sequence number 65535
+			blk := rtcp.CCFeedbackReportBlock{MediaSSRC: 7, BeginSequence: uint16(c[0])}
+			for j := 0; j < c[1] && c[0]+j <= 65535; j++ {
+				blk.MetricBlocks = append(blk.MetricBlocks, rtcp.CCFeedbackMetricBlock{Received: true, ECN: 1, ArrivalTimeOffset: uint16(j)})
+			}
+			emit("rt 1 " + packetTokens(&rtcp.CCFeedbackReport{SenderSSRC: 1, ReportBlocks: []rtcp.CCFeedbackReportBlock{blk}, ReportTimestamp: 9}))
+		}
 		{ // every registered (type, FMT) behind bodies of 0..20 octets of zeros and of ones: whatever comes back has that type
 			for _, pf := range registeredPairs {
 				for _, sz := range []int{0, 4, 8, 12, 16, 20} {
@@ -758,6 +826,25 @@ func genOps(prop string, r *Rng, n int, tier string, emit func(string)) {
 			}
 		}
 	case "C10":
+		{ // compounds led by several receiver reports of one sender: the first member's list stays the first member's
+			rr := func(ssrc uint32, srcs ...uint32) *rtcp.ReceiverReport {
+				v := &rtcp.ReceiverReport{SSRC: ssrc}
+				for _, x := range srcs {
+					v.Reports = append(v.Reports, rtcp.ReceptionReport{SSRC: x})
+				}
+				return v
+			}
+			sd := &rtcp.SourceDescription{Chunks: []rtcp.SourceDescriptionChunk{{Source: 1, Items: []rtcp.SourceDescriptionItem{{Type: rtcp.SDESCNAME, Text: "c"}}}}}
+			for _, ps := range [][]rtcp.Packet{{rr(1, 10, 11), rr(1, 12), sd}, {rr(1), rr(1, 12, 13), sd}, {rr(1, 10), rr(2, 12), sd}, {rr(1, 10), rr(1), rr(1, 14), sd}} {
+				emit("crt " + packetsTokens(ps))
+				emit("cdst " + packetsTokens(ps))
+			}
+			sd2 := &rtcp.SourceDescription{Chunks: []rtcp.SourceDescriptionChunk{{Source: 0x902f9e2e, Items: []rtcp.SourceDescriptionItem{{Type: 1, Text: "a@b"}}}, {Source: 0, Items: []rtcp.SourceDescriptionItem{{Type: 1, Text: "ab"}}}, {Source: 0}}}
+			emit("rtdst 1 " + packetTokens(sd2))
+		}
+		for i := 0; i < n/30; i++ {
+			emit("crt " + packetsTokens(genCompoundSeq(r)))
+		}
 		for i := 0; i < n; i++ {
 			k := allKinds[r.Intn(len(allKinds))]
 			p := dirtyXRHeaders(r, genValue(r, k, false))
@@ -773,6 +860,26 @@ func genOps(prop string, r *Rng, n int, tier string, emit func(string)) {
 			}
 		}
 	case "C11":
+		{ // the first CNAME is the first in wire order, whichever chunk carries the sender's SSRC; an item of type 0 is no terminator
+			it := func(ty rtcp.SDESType, t string) rtcp.SourceDescriptionItem {
+				return rtcp.SourceDescriptionItem{Type: ty, Text: t}
+			}
+			sr := &rtcp.SenderReport{SSRC: 0x22222222}
+			rrr := &rtcp.ReceiverReport{SSRC: 0x22222222}
+			sd := &rtcp.SourceDescription{Chunks: []rtcp.SourceDescriptionChunk{
+				{Source: 0x11111111, Items: []rtcp.SourceDescriptionItem{it(rtcp.SDESCNAME, "first@a")}},
+				{Source: 0x22222222, Items: []rtcp.SourceDescriptionItem{it(rtcp.SDESCNAME, "second@b")}}}}
+			sd0 := &rtcp.SourceDescription{Chunks: []rtcp.SourceDescriptionChunk{{Source: 1, Items: []rtcp.SourceDescriptionItem{{}, it(rtcp.SDESCNAME, "user@host")}}}}
+			sdn := &rtcp.SourceDescription{Chunks: []rtcp.SourceDescriptionChunk{{Source: 1, Items: []rtcp.SourceDescriptionItem{it(rtcp.SDESName, "n"), it(rtcp.SDESCNAME, "c"), it(rtcp.SDESTool, "t")}}}}
+			for _, ps := range [][]rtcp.Packet{{sr, sd}, {rrr, sd}, {rrr, rrr, sd}, {sr, sd0}, {rrr, sdn}} {
+				for _, op := range []string{"cval", "ccname", "cenc", "crt"} {
+					emit(op + " " + packetsTokens(ps))
+				}
+				if b, err := rtcp.Marshal(ps); err == nil {
+					emit("cdec " + hx(b))
+				}
+			}
+		}
 		{ // a caller-built RawPacket whose type octet says SR/RR is still not an SR/RR
 			sd := &rtcp.SourceDescription{Chunks: []rtcp.SourceDescriptionChunk{{Source: 1, Items: []rtcp.SourceDescriptionItem{{Type: rtcp.SDESCNAME, Text: "c"}}}}}
 			for _, pt := range []byte{200, 201} {
@@ -886,6 +993,41 @@ func genOps(prop string, r *Rng, n int, tier string, emit func(string)) {
 			}
 		}
 	case "C12":
+		for i := 0; i < 40; i++ { // a number, fifteen unrelated ones, then the number plus 16 (and variations): nothing may be inferred from position
+			w := &W{}
+			m := uint16(r.Bits(16, 16))
+			var l []uint16
+			if r.Bool() {
+				l = append(l, uint16(r.Bits(16, 16)))
+			}
+			l = append(l, m)
+			for j := 0; j < 15; j++ {
+				switch r.Intn(4) {
+				case 0:
+					l = append(l, m+uint16(1+r.Intn(15)))
+				case 1:
+					l = append(l, uint16(r.Bits(16, 16)))
+				case 2:
+					l = append(l, m+5000+uint16(j))
+				default:
+					l = append(l, l[len(l)-1])
+				}
+			}
+			l = append(l, m+16, m+17)
+			w.U(uint64(len(l)))
+			for _, x := range l {
+				w.U(uint64(x))
+			}
+			emit("nackpairs " + w.String())
+		}
+		for _, l := range [][]int{{0}, {0, 500, 501}, {500, 501, 0}, {65000, 0, 17, 18}, {65535, 0}, {65530, 65533, 65535, 0, 1, 4, 9}} {
+			w := &W{}
+			w.U(uint64(len(l)))
+			for _, x := range l {
+				w.U(uint64(x))
+			}
+			emit("nackpairs " + w.String())
+		}
 		for i := 0; i < 6; i++ { // inputs that need hundreds of pairs
 			w := &W{}
 			m := r.Pick(253, 254, 255, 300, 1000)
@@ -938,6 +1080,10 @@ func genOps(prop string, r *Rng, n int, tier string, emit func(string)) {
 			}
 		}
 	case "C13":
+		for _, f := range bigTwccFrames() {
+			emit("dec.TWCC " + hx(f))
+			emit("udec " + hx(f))
+		}
 		{ // a short packet announcing tens of thousands of deltas, with a neighbour's octets behind its declared length
 			for _, runs := range [][]int{{8191, 8191, 8191, 8191}, {8191, 8191, 8191, 8190}, {8191, 8191, 8191, 8191, 8191, 8191, 8191, 8191}} {
 				for _, sym := range []int{1, 2} {
@@ -995,6 +1141,11 @@ func genOps(prop string, r *Rng, n int, tier string, emit func(string)) {
 			}
 		}
 	case "C14":
+		for _, bits := range []uint32{0x80000000, 0, 1, 0x80000001, 0x3f7fffff, 0x3f800000, 0x7f7fffff, 0x7f800000} { // -0, +0, the smallest values, 1-ulp, 1, max, +Inf
+			q := &rtcp.ReceiverEstimatedMaximumBitrate{SenderSSRC: 1, Bitrate: math.Float32frombits(bits), SSRCs: []uint32{7}}
+			emit(encOp(q))
+			emit(fmt.Sprintf("rembto %s %d", bodyTokens(q), q.MarshalSize()))
+		}
 		for i := 0; i < n; i++ {
 			switch r.Intn(3) {
 			case 0:
@@ -1087,6 +1238,36 @@ func genOps(prop string, r *Rng, n int, tier string, emit func(string)) {
 			}
 		}
 	case "C16":
+		for _, ty := range []uint16{0, 1, 2, 0xffff} { // the chunk kind is the Go type, not the Type field a caller may leave at zero
+			for _, ss := range []uint16{0, 1} {
+				w := &W{}
+				n := 14 - 7*int(ss)
+				c := &rtcp.StatusVectorChunk{Type: ty, SymbolSize: ss}
+				for j := 0; j < n; j++ {
+					c.SymbolList = append(c.SymbolList, uint16(r.Intn(2+int(ss))))
+				}
+				putTwccChunk(w, c)
+				emit("enc.TCHUNK " + w.String())
+				w = &W{}
+				putTwccChunk(w, &rtcp.RunLengthChunk{Type: ty, PacketStatusSymbol: uint16(r.Intn(4)), RunLength: uint16(r.Bits(13, 13))})
+				emit("enc.TCHUNK " + w.String())
+			}
+		}
+		for i := 0; i < 60; i++ { // a pair's packet list goes back into one pair, also across the 65535 -> 0 wrap
+			id, bm := uint16(r.Pick(65530, 65535, 65520, 0, 1, int(r.Bits(16, 16)))), uint16(r.Bits(16, 16))
+			l := []uint16{id}
+			for b := 0; b < 16; b++ {
+				if bm>>uint(b)&1 == 1 {
+					l = append(l, id+uint16(b)+1)
+				}
+			}
+			w := &W{}
+			w.U(uint64(len(l)))
+			for _, x := range l {
+				w.U(uint64(x))
+			}
+			emit("nackpairs " + w.String())
+		}
 		for first := 0x80; first < 0xc0; first++ { // every (padding, count) with the extreme length fields and a few types
 			for _, l := range []int{0, 1, 0xffff} {
 				emit(fmt.Sprintf("dec.HDR %02x%02x%04x", first, []int{0, 200, 205, 255}[first&3], l))
@@ -1198,6 +1379,40 @@ func genOps(prop string, r *Rng, n int, tier string, emit func(string)) {
 			case 5:
 				emit("cstr " + packetsTokens(genPacketList(r, false, 5)))
 			}
+		}
+		for _, nc := range []int{64, 65, 100} { // long outages: many status chunks, few received packets
+			for _, nd := range []int{0, 1, 3, 40, 63, 64} {
+				t := &rtcp.TransportLayerCC{SenderSSRC: 1, MediaSSRC: 2, BaseSequenceNumber: 3, ReferenceTime: 4}
+				cnt := 0
+				if nd > 0 {
+					t.PacketChunks = append(t.PacketChunks, &rtcp.RunLengthChunk{PacketStatusSymbol: 1, RunLength: uint16(nd)})
+					cnt += nd
+				}
+				for len(t.PacketChunks) < nc {
+					t.PacketChunks = append(t.PacketChunks, &rtcp.RunLengthChunk{PacketStatusSymbol: 0, RunLength: uint16(1 + len(t.PacketChunks)%3)})
+					cnt += 1 + (len(t.PacketChunks)-1)%3
+				}
+				for j := 0; j < nd; j++ {
+					t.RecvDeltas = append(t.RecvDeltas, &rtcp.RecvDelta{Type: 1, Delta: 250 * int64(1+j%200)})
+				}
+				t.PacketStatusCount = uint16(cnt)
+				size := t.MarshalSize()
+				t.Header = rtcp.Header{Padding: size != int(rtcp.VerifTWCCPacketLen(t)), Count: rtcp.FormatTCC, Type: rtcp.TypeTransportSpecificFeedback, Length: uint16(size/4 - 1)}
+				emit(opWith("str", t))
+				if b, err := safeMarshal(t); err == nil {
+					emit("strdec " + hx(b))
+				}
+			}
+		}
+		for p := 3; p <= 24; p += 3 { // bitrates that print as 999.99x or 1000.00 of a unit, for every unit
+			for _, f := range []float64{0.99999, 0.999994, 0.999995, 0.999996, 0.999999, 1, 1.000001} {
+				q := &rtcp.ReceiverEstimatedMaximumBitrate{SenderSSRC: 1, Bitrate: float32(f * math.Pow(10, float64(p)))}
+				emit(opWith("str", q))
+				emit(fmt.Sprintf("rembunit %d", math.Float32bits(q.Bitrate)))
+			}
+		}
+		for _, em := range [][2]int{{52, 222044}, {53, 111022}, {54, 55511}, {52, 222043}, {52, 222045}, {42, 227374}, {63, 262143}} {
+			emit("strdec " + hx(rembWire(r, em[0], em[1], 1)))
 		}
 		for _, e := range []string{"PacketType", "SDESType", "BlockTypeType", "TTLorHopLimitType"} {
 			for v := 0; v < 256; v++ {
@@ -1466,4 +1681,27 @@ func polyglotRembTwcc(r *Rng) []byte {
 		b = binary.BigEndian.AppendUint16(b, uint16(run))
 	}
 	return b
+}
+
+// bigTwccFrames: transport-cc frames of 64 KiB and more (length field >= 0x3fff), which 16-bit cursors do not span: a
+// zero-filled chunk area, and a well-formed report on 65528 small deltas
+func bigTwccFrames() [][]byte {
+	var out [][]byte
+	for _, sz := range []int{65536, 65540} {
+		b := append([]byte{0x8f, 205, 0, 0, 0, 0, 0, 1, 0, 0, 0, 2, 0, 1, 0, 1, 0, 0, 0, 0}, make([]byte, sz-20)...)
+		binary.BigEndian.PutUint16(b[2:], uint16(sz/4-1))
+		out = append(out, b)
+	}
+	b := []byte{0x8f, 205, 0, 0, 0, 0, 0, 1, 0, 0, 0, 2, 0, 1, 0xff, 0xf8, 0, 0, 0, 0}
+	for i := 0; i < 8; i++ {
+		b = append(b, 0x3f, 0xff) // run of 8191 small deltas
+	}
+	for i := 0; i < 65528; i++ {
+		b = append(b, byte(1+i%200))
+	}
+	for len(b)%4 != 0 {
+		b = append(b, 0)
+	}
+	binary.BigEndian.PutUint16(b[2:], uint16(len(b)/4-1))
+	return append(out, b)
 }
